@@ -77,6 +77,7 @@ Fixpoint holds_steps (u : list sid) (vis : list pt) (obls : list obl) (l : list 
       let keep := filter (fun k => negb (hit mint maxt sel k)) vis in
       holds_steps u keep (map (obl_del mint maxt sel) obls ++ [mkObl mint maxt sel keep []]) r
   | SOp _ _ :: r => holds_steps u vis obls r
+  | SSpec _ :: r => holds_steps u vis obls r   (* C01's specification-only steps never occur in C20 histories *)
   | SQuery qmin qmax qsel res :: r =>
       let got := flat res in
       forallb (obl_ok qmin qmax qsel got) obls
@@ -96,5 +97,6 @@ Fixpoint n_checks (seen_delete : bool) (l : list cstep) : nat :=
   | [] => O
   | SOp (Delete _ _ _) _ :: r => n_checks true r
   | SOp _ _ :: r => n_checks seen_delete r
+  | SSpec _ :: r => n_checks seen_delete r
   | SQuery _ _ _ _ :: r => (if seen_delete then 1 else 0) + n_checks seen_delete r
   end.
